@@ -53,7 +53,8 @@ CLAIMS = {
              'and collection loads, collection add/remove/clear/create/assign, in-place Json change) on objects of every status left over from sessions that '
              'committed, rolled back or failed, strict and non-strict: the liveness precondition holds, the call raises DatabaseSessionIsOver (or the equally '
              'harmless was-deleted / db_session-required error), the object and session state equal the snapshot, and no SQL / connection effect occurs; loaded '
-             'values remain readable unless strict.',
+             'values remain readable unless strict. BOUNDED: 16 reads that need the database (untouched collections, lazy attribute, one-to-one partner without a column, to_dict) outside any session and inside a '
+             'new session on the same thread are refused without a statement and without touching the snapshot.',
         note='Ground obligations over a finite domain (3 endings x 2 x 5 object kinds x 15 operations + reads). Entry points outside the listed operations are '
              'not covered. In-memory SQLite provides the real sessions that leave the objects behind.'),
     'C06': dict(
